@@ -32,6 +32,8 @@ pub enum Action {
     ClearQualifiers,
     /// overwrite an existing qualifier in place through `IndexMut` (nothing happens if it is absent)
     IndexSet(String, String),
+    /// the hook itself parses (and prints) another PURL - re-entering the library while a parse or build is under way
+    Reenter(String),
 }
 
 #[derive(Clone, Debug, Default, Serialize, Deserialize, PartialEq, Eq, Hash)]
@@ -141,6 +143,10 @@ pub fn apply_action(a: &Action, parts: &mut PurlParts) -> Result<(), ShapeError>
                 parts.qualifiers[k.as_str()] = SmallString::from(v.as_str());
             }
         },
+        Action::Reenter(s) => {
+            let _ = <purl::GenericPurl<String> as FromStr>::from_str(s).map(|p| p.to_string());
+            let _ = <purl::Purl as FromStr>::from_str(s).map(|p| p.to_string());
+        },
     }
     Ok(())
 }
@@ -178,6 +184,11 @@ pub fn gaction() -> BoxedStrategy<Action> {
         1 => gkey_any().prop_map(Action::RemoveQualifier),
         1 => Just(Action::ClearQualifiers),
         1 => (gkey_any(), garg()).prop_map(|(k, v)| Action::IndexSet(k, v)),
+        1 => prop_oneof![
+            select(&["pkg:cargo/foo@1.0", "pkg:npm/%40a/b?k=v#s", "not-a-purl", "pkg:t/%80", "pkg:pypi/A_b", ""][..]).prop_map(str::to_string),
+            crate::gens::gsoup(),
+        ]
+        .prop_map(Action::Reenter),
         2 => (select(&["checksum", "Checksum"][..]), gck_text()).prop_map(|(k, v)| Action::IndexSet(k.to_string(), v)),
     ]
     .boxed()
@@ -237,6 +248,7 @@ pub fn apply_model(spec: &ShapeSpec, mut m: PartsModel) -> HookExpect {
                     }
                 }
             },
+            Action::Reenter(_) => {},
         }
     }
     let mut reasons = Vec::new();
